@@ -11,6 +11,11 @@ State of a wrapper = one `Slot` per parameter of the wrapped function, holding
   * `fn`    the value of the wrapped function's own parameter.
 `pi`, `tiny` are `NumConstants::PI()` and `NumConstants::TINY()`.
 
+The second constructor (h:53-59, only the parameters of a given list) is the same `init` applied to
+`function->getParameters().getCommonParametersWith(parameters)`; the function's other parameters
+never move and are part of the abstract `f` (the driver's `Ctx` does exactly this for the harness's
+polynomials).
+
 Not modelled: an `IntervalConstraint` with both bounds infinite (it falls into cases 5/6 of
 `init_` with an infinite bound), constraints that are not intervals (they get the placebo, like
 `Shape.none`), the comparison of a value with an infinite bound in `isCorrect`, parameter names
@@ -54,45 +59,70 @@ deriving DecidableEq, Repr
 
 def neb (a b : α) : Bool := !(eqb a b)
 
-/-- `Parameter::setValue` (Parameter.cpp:55-64) with a constraint, precision 0 -/
+/-- `Parameter::setValue` (Parameter.cpp:72-83) with a constraint, precision 0 -/
 def paramSetC (shape : Shape α) (cur v : α) : Except Exc α :=
   if gtb (Scalar.abs (v - cur)) (zero / two) then
     (if !(shape.isCorrect v) then .error .constraint else .ok v)
   else .ok cur
 
-/-- "This solves an issue if the original value is at the bound" (cpp:38-42, 62-64, 76-78, 100-102,
-120-122): both tests read the *uncorrected* value -/
+/-- "This solves an issue if the original value is at the bound" (cpp:39-43, 72-74, 93-94, 121-123,
+147-149): a value closer than `tiny` to a *closed* bound is moved `tiny` inside; both tests read the
+*uncorrected* value -/
 def correctLower (tiny value a : α) (cv : α) : α :=
   if ltb (Scalar.abs (value - a)) tiny then a + tiny else cv
 def correctUpper (tiny value b : α) (cv : α) : α :=
   if ltb (Scalar.abs (value - b)) tiny then b - tiny else cv
 
-/-- `init_` for one parameter (cpp:15-137): which transform, with which nudged bounds.
+/-- the same for an *open* bound, whose corrected bound `lo = a + tiny` / `hi = b - tiny` is what
+the transformed parameter is built with (cpp:54-62, 76-78, 89-92, 108-111, 134-137; added by the
+`fix:` commit recorded in findings/C11.json, "a value within TINY of an open bound"): the
+constraint accepts values up to the original bound, so a value closer than `tiny` to the corrected
+bound *or beyond it* is moved `tiny` inside the corrected bound (one-sided test, no `abs`) -/
+def correctLowerOpen (tiny value lo : α) (cv : α) : α :=
+  if ltb (value - lo) tiny then lo + tiny else cv
+def correctUpperOpen (tiny value hi : α) (cv : α) : α :=
+  if ltb (hi - value) tiny then hi - tiny else cv
+
+/-- the value `init_` hands to the constructor of the transformed parameter (`correctedValue`).
+When a lower and an upper correction both apply the upper one wins (it is assigned last). -/
+def corrected (tiny : α) : Shape α → α → α
+  | .none, v => v
+  | .cc a b, v => correctUpper tiny v b (correctLower tiny v a v)                         -- case 1
+  | .oo a b, v => correctUpperOpen tiny v (b - tiny) (correctLowerOpen tiny v (a + tiny) v) -- case 2
+  | .co a b, v => correctUpperOpen tiny v (b - tiny) (correctLower tiny v a v)             -- case 3
+  | .oc a b, v => correctUpper tiny v b (correctLowerOpen tiny v (a + tiny) v)             -- case 4
+  | .gt a, v => correctLowerOpen tiny v (a + tiny) v                                       -- case 5
+  | .ge a, v => correctLower tiny v a v                                                    -- case 6
+  | .lt b, v => correctUpperOpen tiny v (b - tiny) v                                       -- case 7
+  | .le b, v => correctUpper tiny v b v                                                    -- case 8
+
+/-- does `init_` move the value? (the disjunction of the tests of `corrected`) -/
+def isNudged (tiny : α) : Shape α → α → Bool
+  | .none, _ => false
+  | .cc a b, v => ltb (Scalar.abs (v - a)) tiny || ltb (Scalar.abs (v - b)) tiny
+  | .oo a b, v => ltb (v - (a + tiny)) tiny || ltb ((b - tiny) - v) tiny
+  | .co a b, v => ltb (Scalar.abs (v - a)) tiny || ltb ((b - tiny) - v) tiny
+  | .oc a b, v => ltb (v - (a + tiny)) tiny || ltb (Scalar.abs (v - b)) tiny
+  | .gt a, v => ltb (v - (a + tiny)) tiny
+  | .ge a, v => ltb (Scalar.abs (v - a)) tiny
+  | .lt b, v => ltb ((b - tiny) - v) tiny
+  | .le b, v => ltb (Scalar.abs (v - b)) tiny
+
+/-- `init_` for one parameter (cpp:13-168): which transform, with which corrected bounds, from
+which corrected value.
 `none` = the constructor of the transformed parameter raised a ConstraintException. -/
 def initOne (pi tiny : α) (shape : Shape α) (value : α) : Option (TP α) :=
+  let cv := corrected tiny shape value
   match shape with
-  | .none => some (TP.placebo value)
-  | .cc a b =>      -- case 1
-    let cv := correctUpper tiny value b (correctLower tiny value a value)
-    some (.i (IT.new pi cv a b one true))
-  | .oo a b =>      -- case 2
-    some (.i (IT.new pi value (a + tiny) (b - tiny) one true))
-  | .co a b =>      -- case 3
-    let cv := correctLower tiny value a value
-    some (.i (IT.new pi cv a (b - tiny) one true))
-  | .oc a b =>      -- case 4
-    let cv := correctUpper tiny value b value
-    some (.i (IT.new pi cv (a + tiny) b one true))
-  | .gt a =>        -- case 5
-    (RT.new value (a + tiny) true one).map .r
-  | .ge a =>        -- case 6
-    let cv := correctLower tiny value a value
-    (RT.new cv a true one).map .r
-  | .lt b =>        -- case 7
-    (RT.new value (b - tiny) false one).map .r
-  | .le b =>        -- case 8
-    let cv := correctUpper tiny value b value
-    (RT.new cv b false one).map .r
+  | .none => some (TP.placebo cv)
+  | .cc a b => some (.i (IT.new pi cv a b one true))                        -- case 1: [a,b]
+  | .oo a b => some (.i (IT.new pi cv (a + tiny) (b - tiny) one true))      -- case 2: ]a,b[
+  | .co a b => some (.i (IT.new pi cv a (b - tiny) one true))               -- case 3: [a,b[
+  | .oc a b => some (.i (IT.new pi cv (a + tiny) b one true))               -- case 4: ]a,b]
+  | .gt a => (RT.new cv (a + tiny) true one).map .r                         -- case 5: ]a,+inf[
+  | .ge a => (RT.new cv a true one).map .r                                  -- case 6: [a,+inf[
+  | .lt b => (RT.new cv (b - tiny) false one).map .r                        -- case 7: ]-inf,b[
+  | .le b => (RT.new cv b false one).map .r                                 -- case 8: ]-inf,b]
 
 structure Slot (α : Type) where
   tp : TP α
@@ -102,19 +132,19 @@ structure Slot (α : Type) where
 
 abbrev W (α : Type) := List (Slot α)
 
-/-- the constructor (h:37-44): copy of the function's parameters, then `init_` -/
+/-- the constructor (h:36-42): copy of the function's parameters, then `init_` -/
 def init (pi tiny : α) (ps : List (Shape α × α)) : Except Exc (W α) :=
   ps.mapM (fun p => match initOne pi tiny p.1 p.2 with
     | some tp => .ok { tp := tp, shape := p.1, fp := p.2, fn := p.2 }
     | none => .error .constraint)
 
-/-- one iteration of `fireParameterChanged` (cpp:148-159) -/
+/-- one iteration of `fireParameterChanged` (cpp:177-188) -/
 def fireOne (pi : α) (s : Slot α) : Except Exc (Slot α) :=
   match paramSetC s.shape s.fp (s.tp.getOriginal pi) with
   | .ok v => .ok { s with fp := v }
   | .error e => .error e
 
-/-- `fireParameterChanged` (cpp:141-161): *all* coordinates are back-transformed -/
+/-- `fireParameterChanged` (cpp:170-190): *all* coordinates are back-transformed -/
 def fire (pi : α) (w : W α) : Except Exc (W α) := w.mapM (fireOne pi)
 
 /-- `ParameterList::matchParametersValues` on the transformed parameters (no constraints):
@@ -142,7 +172,7 @@ def pushBad (s : Slot α) (u : Option α) : Bool :=
   | some _ => !(s.shape.isCorrect s.fp)
   | none => false
 
-/-- `setParameters` (h:89-96), i.e. `f(parameters)` without the evaluation: `upd` is aligned with
+/-- `setParameters` (h:90-97), i.e. `f(parameters)` without the evaluation: `upd` is aligned with
 the parameters, `some x` for the named ones -/
 def set (pi : α) (w : W α) (upd : List (Option α)) : Except Exc (W α) :=
   if upd.length ≠ w.length then .error .notfound else
@@ -165,22 +195,22 @@ def run (pi : α) : W α → List (List (Option α)) → Except Exc (W α)
 /-- the point at which the wrapped function stands -/
 def fnVals (w : W α) : List α := w.map (·.fn)
 
-/-- `getValue` (h:98-101) -/
+/-- `getValue` (h:99-102) -/
 def value (f : List α → α) (w : W α) : α := f (fnVals w)
 
-/-- `getFirstOrderDerivative` (h:141-145) -/
+/-- `getFirstOrderDerivative` (h:153-157) -/
 def d1 (pi : α) (df : List α → Nat → α) (w : W α) (i : Nat) : Option α :=
   match w[i]? with
   | some s => some (df (fnVals w) i * s.tp.d1 pi)
   | none => none
 
-/-- `getSecondOrderDerivative(variable)` (h:197-203) -/
+/-- `getSecondOrderDerivative(variable)` (h:207-213) -/
 def d2 (pi : α) (df : List α → Nat → α) (d2f : List α → Nat → Nat → α) (w : W α) (i : Nat) : Option α :=
   match w[i]? with
   | some s => some (d2f (fnVals w) i i * sq (s.tp.d1 pi) + df (fnVals w) i * s.tp.d2 pi)
   | none => none
 
-/-- `getSecondOrderDerivative(variable1, variable2)` (h:205-210) -/
+/-- `getSecondOrderDerivative(variable1, variable2)` (h:215-220) -/
 def d2x (pi : α) (d2f : List α → Nat → Nat → α) (w : W α) (i j : Nat) : Option α :=
   match w[i]?, w[j]? with
   | some si, some sj => some (d2f (fnVals w) i j * si.tp.d1 pi * sj.tp.d1 pi)
